@@ -111,12 +111,12 @@ fn coordinates<const W: u8, const H: u8, const MAXCOUNT: u8>() {
 }
 
 #[kani::proof]
-#[kani::unwind(12)]
+#[kani::unwind(42)]
 fn c18_coordinates_2x2() {
     coordinates::<2, 2, 4>();
 }
 #[kani::proof]
-#[kani::unwind(12)]
+#[kani::unwind(42)]
 fn c18_coordinates_3x3() {
     coordinates::<3, 3, 9>();
 }
